@@ -83,8 +83,12 @@ def _c07_extras(E):
                         ns = 2 * sn - 1
                         lms = list(itertools.product(range(ns), repeat=on))
                         rng.shuffle(lms)
-                        for lm in lms[: (3 if tier != "thorough" else 10)]:
-                            yield {"obj": osh, "sp": ssh, "leafmap": list(lm), "costs": [0, rng.randrange(0, 4), "inf", rng.randrange(0, 4), 1]}
+                        for j, lm in enumerate(lms[: (3 if tier != "thorough" else 10)]):
+                            r = {"obj": osh, "sp": ssh, "leafmap": list(lm), "costs": [0, rng.randrange(0, 4), "inf", rng.randrange(0, 4), 1]}
+                            yield r
+                            if sn >= 2 and j == 0:  # species trees whose internal nodes are unnamed / share names
+                                yield dict(r, sp_names="blank-internal")
+                                yield dict(r, sp_names="dup")
 
     def build(recipe, src_root):
         mod = native.import_real(M, src_root)
@@ -159,3 +163,7 @@ _setup_c07 = setup
 def setup(E):  # noqa: F811
     _setup_c07(E)
     _c07_extras(E)
+    from standin import c01
+
+    # bounded stand-ins for the plain-reconciliation solvers (C01 / C05 / C04): thl, exhaustive, generate_all vs brute force
+    E._c01_all = c01.standin("reconciliation:thl-exh-vs-brute-force")
